@@ -23,10 +23,34 @@ pub struct ProbeResult {
     pub note: String,
 }
 
-pub const ENTRIES: [&str; 9] = [
+pub const ENTRIES: [&str; 10] = [
     "decode", "decode_borrowed", "decode_with_atom_cache", "decode_with_trailing", "decode_raw_term", "decode_with_cache",
-    "decode_fragment_header", "decode_fragment_cont", "Connection::decode_complete_fragment",
+    "decode_fragment_header", "decode_fragment_cont", "Connection::decode_complete_fragment", "FragmentAssembler script",
 ];
+
+/// Values a script byte selects for a fragment id / fragment count.
+pub const FRAG_VALUES: [u64; 8] = [0, 1, 2, 3, 4, (1u64 << 32) + 1, (1u64 << 32) + 2, u64::MAX];
+
+/// A script is a sequence of 2-byte operations [kind, value index]: kind 0 = fragment header announcing/numbered FRAG_VALUES[v],
+/// kind 1 = continuation with that id, kind 2 = header carrying an atom-cache section, kind 3 = cleanup, kind 4 = clear.
+fn run_assembler_script(data: &[u8]) -> bool {
+    let mut a = edp_client::fragmentation::FragmentAssembler::new();
+    let mut any = false;
+    for op in data.chunks(2) {
+        if op.len() < 2 { break; }
+        let v = FRAG_VALUES[op[1] as usize % FRAG_VALUES.len()];
+        let r = match op[0] % 5 {
+            0 => a.start_fragment(7u64, v, None, vec![1, 2]),
+            1 => a.add_fragment(7u64, v, vec![3]),
+            2 => a.start_fragment(7u64, v, Some(vec![9, 9]), vec![]),
+            3 => { let _ = a.cleanup_expired(); None }
+            _ => { a.clear(); None }
+        };
+        any |= r.is_some();
+        let _ = a.pending_count();
+    }
+    any
+}
 
 fn run_entry(entry: u8, data: &[u8]) -> bool {
     use erltf::decoder;
@@ -39,6 +63,7 @@ fn run_entry(entry: u8, data: &[u8]) -> bool {
         5 => decoder::decode_with_cache(data).is_ok(),
         6 => decoder::decode_fragment_header(data).is_ok(),
         7 => decoder::decode_fragment_cont(data).is_ok(),
+        9 => run_assembler_script(data),
         _ => { let mut c = decoder::AtomCache::new(); edp_client::Connection::decode_complete_fragment(data, &mut c).is_ok() }
     }
 }
